@@ -336,8 +336,17 @@ func c02DispatchTable(p *Prog, fi *FuncInfo, readers ...string) ([]dispatchRow, 
 							}
 						}
 					}
-					if isReader && len(x.Args) >= 2 {
+					if isReader && len(x.Args) >= 1 {
 						store, point := "?", "snapshot-point"
+						// a reader that only ever selects the latest version (latestFileOfTx) has no point to be given;
+						// one that only selects before a bound is judged by the bound it is handed
+						rk := ""
+						if h := p.staticCallee(fi.Pkg, x); h != nil {
+							rk = p.readerKind(h)
+						}
+						if rk == "latest-only" {
+							point = "latest"
+						}
 						for _, a := range x.Args {
 							tv, ok := info.Types[a]
 							if !ok {
@@ -370,6 +379,8 @@ func c02DispatchTable(p *Prog, fi *FuncInfo, readers ...string) ([]dispatchRow, 
 									point = "latest"
 								case v.Ptr != nil && v.Ptr.C != nil && v.Ptr.C.ExactString() == "5":
 									point = "snapshot-point"
+								case v.C != nil && v.C.ExactString() == "5" && rk == "before-only":
+									point = "snapshot-point" // the bound by value (*filter.BeforeSeq)
 								default:
 									point = types.ExprString(a)
 								}
@@ -490,6 +501,18 @@ func c02Dispatch(p *Prog, r *Report) {
 				if hasSeq && flag != nil {
 					setFlag = flag
 				}
+			}
+		}
+		// a reader that only ever selects one way has nothing to choose: the dispatch table decides which one is called
+		if rk := p.readerKind(fi); rk == "latest-only" || rk == "before-only" {
+			byValue := bsObj == nil
+			if bsObj != nil {
+				_, isPtr := bsObj.Type().(*types.Pointer)
+				byValue = !isPtr
+			}
+			if byValue && setFlag == nil {
+				r.Hold("C02.b", k+"#reader-selection", p.pos(fi.Decl), "selects "+rk+" (no optional point to test); which reader is called is decided in the dispatch table")
+				continue
 			}
 		}
 		if bsObj == nil && setFlag == nil {
@@ -1254,4 +1277,32 @@ func c02GetTail(p *Prog, fi *FuncInfo) (good bool, detail string, decided bool) 
 		}
 	}
 	return good, detail, true
+}
+
+// readerKind: does a per-store reader select with Latest only, with LastBefore only, or with both?
+func (p *Prog) readerKind(fi *FuncInfo) string {
+	if fi == nil || fi.Decl == nil || fi.Decl.Body == nil {
+		return ""
+	}
+	latest, before := false, false
+	ast.Inspect(fi.Decl.Body, func(x ast.Node) bool {
+		if c, ok := x.(*ast.CallExpr); ok {
+			if p.callIs(fi.Pkg, c, kFileLatest) {
+				latest = true
+			}
+			if p.callIs(fi.Pkg, c, kLastBefore) {
+				before = true
+			}
+		}
+		return true
+	})
+	switch {
+	case latest && before:
+		return "both"
+	case latest:
+		return "latest-only"
+	case before:
+		return "before-only"
+	}
+	return ""
 }
